@@ -1,6 +1,6 @@
 (* C19 property theorems (statements only; proofs in AbiOutProofs.v). *)
 From Coq Require Import ZArith List Bool String.
-From Verif Require Import C19.AbiOut C19.AbiOutProofs C19.Mutability.
+From Verif Require Import C19.AbiOut C19.AbiOutProofs C19.Mutability C19.SelectorInj.
 Import ListNotations.
 Open Scope string_scope.
 
@@ -71,6 +71,16 @@ Theorem mutability_consistent : forall f e, In e (to_toplevel_abi f) ->
      (is_payable m = true <-> show_mut (e_mut e) = "payable")).
 Proof. exact mutability_consistent_thm. Qed.
 Print Assumptions mutability_consistent.
+
+(* selector names are uniquely readable: two ABI types with the same name have the same tree once the bounds of
+   Bytes / String / DynArray are erased (structs are tuples at this level), i.e. they are encoded identically. *)
+Theorem selector_name_injective_mod_equiv : forall a b, awf a -> awf b ->
+  selector_name a = selector_name b -> erase a = erase b.
+Proof. exact selector_name_injective_mod_equiv_thm. Qed.
+Print Assumptions selector_name_injective_mod_equiv.
+
+Example ex_equiv : erase (ADArr (ATuple [ABytes 5; AInt false 8]) 3) = erase (ADArr (ATuple [ABytes 9; AInt false 8]) 7).
+Proof. reflexivity. Qed.
 
 (* non-vacuity: a nested public variable and a function with two defaults *)
 Example ex_getter :
